@@ -55,20 +55,20 @@ func Raw(c []CLine) string {
 // Fld is a field.  Ty is one of the 15 proto scalar type names, "enum",
 // "msg", "timestamp", "duration" or "bogus" (unknown type, C18).
 type Fld struct {
-	Name     string `json:"name"`
-	Num      int    `json:"num"`
-	Ty       string `json:"ty"`
-	Ref      string `json:"ref"`      // message name for ty=msg
-	Card     string `json:"card"`     // one | rep | map
-	MapKey   string `json:"mapkey"`   // proto type of the key for card=map ("string" in D)
-	Nullable bool   `json:"nullable"` // gogoproto.nullable (default true)
-	Embed    bool   `json:"embed"`
-	Oneof    string `json:"oneof"` // proto name of the oneof group, "" if none
-	HasJSON  bool   `json:"hasjson"`
-	JSONTag  string `json:"jsontag"`
-	Cast     string `json:"cast"`   // gogoproto.casttype
-	Custom   string `json:"custom"` // gogoproto.customtype
-	Std      string `json:"std"`    // "" | time | duration  (stdtime / stdduration)
+	Name     string  `json:"name"`
+	Num      int     `json:"num"`
+	Ty       string  `json:"ty"`
+	Ref      string  `json:"ref"`      // message name for ty=msg
+	Card     string  `json:"card"`     // one | rep | map
+	MapKey   string  `json:"mapkey"`   // proto type of the key for card=map ("string" in D)
+	Nullable bool    `json:"nullable"` // gogoproto.nullable (default true)
+	Embed    bool    `json:"embed"`
+	Oneof    string  `json:"oneof"` // proto name of the oneof group, "" if none
+	HasJSON  bool    `json:"hasjson"`
+	JSONTag  string  `json:"jsontag"`
+	Cast     string  `json:"cast"`   // gogoproto.casttype
+	Custom   string  `json:"custom"` // gogoproto.customtype
+	Std      string  `json:"std"`    // "" | time | duration  (stdtime / stdduration)
 	Comment  []CLine `json:"comment"`
 }
 
@@ -102,35 +102,37 @@ type KInj struct {
 
 // Alt is one alternative rendering of a run.
 type Alt struct {
-	Name    string `json:"name"`
-	Clause  string `json:"clause"` // the Contract clause this alternative serves (echoed to the trace validator)
-	Channel []KV   `json:"channel"`
-	Perm    int    `json:"perm"` // 0 = canonical order of YAML / CLI entries, else seed of a permutation
-	EmptyCLI bool  `json:"emptycli"` // additionally pass every list option not delivered on the command line as an EMPTY parameter (types=, exclude_fields= ...): empty means "not given"
-	Msgs    []Msg  `json:"msgs"` // empty = the run's own messages
+	Name     string `json:"name"`
+	Clause   string `json:"clause"` // the Contract clause this alternative serves (echoed to the trace validator)
+	Channel  []KV   `json:"channel"`
+	Perm     int    `json:"perm"`     // 0 = canonical order of YAML / CLI entries, else seed of a permutation
+	EmptyCLI bool   `json:"emptycli"` // additionally pass every list option not delivered on the command line as an EMPTY parameter (types=, exclude_fields= ...): empty means "not given"
+	Msgs     []Msg  `json:"msgs"`     // empty = the run's own messages
 }
 
 // Cfg is the abstract configuration.
 type Cfg struct {
-	Types         []string `json:"types"`
-	Sort          bool     `json:"sort"`
-	Separate      bool     `json:"separate"` // separate target package
-	ImportOverride bool    `json:"importoverride"`
-	DottedImport   bool    `json:"dottedimport"` // the struct package lives at an import path whose last element has a dot (types.v1)
-	Exclude       []string `json:"exclude"`
-	Required      []string `json:"required"`
-	Computed      []string `json:"computed"`
-	Sensitive     []string `json:"sensitive"`
-	NameOverrides []KV     `json:"nameoverrides"`
-	Validators    []KVs    `json:"validators"`
-	PlanModifiers []KVs    `json:"planmodifiers"`
-	USFU          bool     `json:"usfu"`
-	Injected      []KInj   `json:"injected"`
-	TimeType      bool     `json:"timetype"`
-	DurationType  bool     `json:"durationtype"`
-	DurationCustom string  `json:"durationcustom"`
-	CustomTypes   []KV     `json:"customtypes"`
-	Suffixes      []KV     `json:"suffixes"`
+	Types          []string `json:"types"`
+	Sort           bool     `json:"sort"`
+	Separate       bool     `json:"separate"` // separate target package
+	ImportOverride bool     `json:"importoverride"`
+	DottedImport   bool     `json:"dottedimport"` // the struct package lives at an import path whose last element has a dot (types.v1)
+	Exclude        []string `json:"exclude"`
+	Required       []string `json:"required"`
+	Computed       []string `json:"computed"`
+	Sensitive      []string `json:"sensitive"`
+	NameOverrides  []KV     `json:"nameoverrides"`
+	// SchemaTypes: schema_types overrides, field key -> "string" | "int64" (the harness's OvrStringType / OvrIntType)
+	SchemaTypes    []KV   `json:"schematypes"`
+	Validators     []KVs  `json:"validators"`
+	PlanModifiers  []KVs  `json:"planmodifiers"`
+	USFU           bool   `json:"usfu"`
+	Injected       []KInj `json:"injected"`
+	TimeType       bool   `json:"timetype"`
+	DurationType   bool   `json:"durationtype"`
+	DurationCustom string `json:"durationcustom"`
+	CustomTypes    []KV   `json:"customtypes"`
+	Suffixes       []KV   `json:"suffixes"`
 	// Channel says, per two-channel option name, how it is delivered:
 	// "" or "yaml" (YAML only), "cli", "both" (CLI value + contradicting YAML value).
 	Channel []KV `json:"channel"`
